@@ -195,8 +195,10 @@ func FuncBuilder(env *Zlisp, name string,
 			gen.funcname = ""
 		}
 	}
+	macrosBefore := env.macrosSnapshot()
 	err = gen.GenerateBegin(body)
 	if err != nil {
+		env.macrosRestore(macrosBefore)
 		return MissingFunction, err
 	}
 
